@@ -637,28 +637,39 @@ def _escape_sweep(rep, tier, rng):
         items.append(('"\\u%04X"' % cp, None, "lone-surrogate"))
     items += [('"\\n"', "\n", "simple"), ('"\\t"', "\t", "simple"), ('"\\r"', "\r", "simple"), ('"\\\\"', "\\", "simple"), ('"\\""', '"', "simple"), ("\"\\'\"", "'", "simple"), ('"\\U110000"', None, "out-of-range"),
               ('"\\uDC00\\uD800"', None, "reversed-surrogates")]
+    # every malformed neighbourhood of a surrogate: high followed by anything but a low one, a low one first (both escape spellings)
+    highs, lows, others = [0xD800, 0xD83D, 0xDBFF], [0xDC00, 0xDE00, 0xDFFF], [0x41, 0xD7FF, 0xE000, 0xFFFF]
+    for hi in highs:
+        for nxt in highs + others:
+            for fa, fb in (("\\u%04X", "\\u%04X"), ("\\u%04X", "\\U%06X"), ("\\U%06X", "\\u%04X")):
+                items.append(('"' + fa % hi + fb % nxt + '"', None, "high-surrogate-not-followed-by-low"))
+        items.append(('"\\u%04Xa"' % hi, None, "high-surrogate-not-followed-by-low"))
+    for lo in lows:
+        for nxt in highs + lows + others:
+            items.append(('"\\u%04X\\u%04X"' % (lo, nxt), None, "low-surrogate-first"))
     cases, meta = [], []
     for group in chunks(items, 300):
         cases.append({"op": "evalmany", "texts": [g[0] for g in group]})
         meta.append(group)
-    results, _ = runner.run_cases("dbg", cases, rep.workdir, label="escapes")
     n = 0
-    for case, group, res in zip(cases, meta, results):
-        if "rs" not in res:
-            raise runner.Inconclusive("escape sweep batch failed: %s" % json.dumps(res)[:300])
-        for (text, want, cls), r in zip(group, res["rs"]):
-            rep.count()
-            n += 1
-            one = {"variant": "dbg", "case": {"op": "eval", "text": text}, "expected": want}
-            if "panic" in r:
-                rep.violation(panic_signature(r["panic"]), "panic on literal %s" % text, one)
-            elif want is None:
-                if "v" in r and r["v"] is not None:
-                    rep.violation("escape-accepted-invalid:%s" % cls, "literal %s evaluated to %s" % (text, json.dumps(r["v"])[:80]), one)
-            else:
-                got = r.get("v")
-                if not (isinstance(got, dict) and got.get("s") == want):
-                    rep.violation("escape-wrong-string:%s" % cls, "literal %s gave %s, expected %r" % (text, json.dumps(r)[:120], want), one)
+    for variant in ("dbg", "rel"):
+      results, _ = runner.run_cases(variant, cases, rep.workdir, label="escapes")
+      for case, group, res in zip(cases, meta, results):
+          if "rs" not in res:
+              raise runner.Inconclusive("escape sweep batch failed: %s" % json.dumps(res)[:300])
+          for (text, want, cls), r in zip(group, res["rs"]):
+              rep.count()
+              n += 1
+              one = {"variant": variant, "case": {"op": "eval", "text": text}, "expected": want}
+              if "panic" in r:
+                  rep.violation(panic_signature(r["panic"]), "panic on literal %s" % text, one)
+              elif want is None:
+                  if "v" in r and r["v"] is not None:
+                      rep.violation("escape-accepted-invalid:%s" % cls, "literal %s evaluated to %s" % (text, json.dumps(r["v"])[:80]), one)
+              else:
+                  got = r.get("v")
+                  if not (isinstance(got, dict) and got.get("s") == want):
+                      rep.violation("escape-wrong-string:%s" % cls, "literal %s gave %s, expected %r" % (text, json.dumps(r)[:120], want), one)
     rep.extra["escape_literals_checked"] = n
 
 
